@@ -566,3 +566,101 @@ func (w *World) isMutableGlobal(o *types.Var) bool {
 	}
 	return w.mutGlobals[o]
 }
+
+func (w *World) lemmaByName(name string) *Decl {
+	for _, d := range w.Lemmas {
+		if d.Kind == "lemma" && d.Name == name {
+			return d
+		}
+	}
+	return nil
+}
+
+// checkEstablishedBy: structural scan behind every type invariant. Objects of a type with an invariant may be
+// created (new(T), T{}, &T{}) and have their fields assigned only inside the functions listed after
+// established_by (whose contracts prove the invariant) -- otherwise assuming the invariant for every *T is unsound.
+func (w *World) checkEstablishedBy() []string {
+	var problems []string
+	for key, td := range w.TypeInvs {
+		pk := w.Pkgs[td.Pkg]
+		allowed := map[string]bool{}
+		for _, e := range td.Estab {
+			allowed[e] = true
+		}
+		tobj := pk.Types.Scope().Lookup(td.Name)
+		if tobj == nil {
+			problems = append(problems, key+": type not found")
+			continue
+		}
+		named, _ := tobj.Type().(*types.Named)
+		isT := func(t types.Type) bool {
+			if t == nil {
+				return false
+			}
+			if p, ok := t.(*types.Pointer); ok {
+				t = p.Elem()
+			}
+			n, ok := t.(*types.Named)
+			return ok && n == named
+		}
+		for _, q := range w.Order {
+			for _, f := range q.Files {
+				if f == q.GenFile {
+					continue
+				}
+				for _, dcl := range f.Decls {
+					fd, ok := dcl.(*ast.FuncDecl)
+					if !ok || fd.Body == nil {
+						continue
+					}
+					name := funcKey(fd)
+					ast.Inspect(fd.Body, func(n ast.Node) bool {
+						bad := ""
+						switch y := n.(type) {
+						case *ast.CallExpr:
+							if id, ok := y.Fun.(*ast.Ident); ok && id.Name == "new" && len(y.Args) == 1 {
+								if isT(q.Info.TypeOf(y.Args[0])) {
+									bad = "new(" + td.Name + ")"
+								}
+							}
+						case *ast.CompositeLit:
+							if isT(q.Info.TypeOf(y)) {
+								bad = td.Name + "{} literal"
+							}
+						case *ast.AssignStmt:
+							for _, l := range y.Lhs {
+								if se, ok := l.(*ast.SelectorExpr); ok {
+									if sel, ok := q.Info.Selections[se]; ok && sel.Kind() == types.FieldVal && isT(sel.Recv()) {
+										bad = "assignment to field " + se.Sel.Name
+									}
+								}
+							}
+						case *ast.IncDecStmt:
+							if se, ok := y.X.(*ast.SelectorExpr); ok {
+								if sel, ok := q.Info.Selections[se]; ok && sel.Kind() == types.FieldVal && isT(sel.Recv()) {
+									bad = "update of field " + se.Sel.Name
+								}
+							}
+						case *ast.UnaryExpr:
+							if y.Op.String() == "&" {
+								if se, ok := y.X.(*ast.SelectorExpr); ok {
+									if sel, ok := q.Info.Selections[se]; ok && sel.Kind() == types.FieldVal && isT(sel.Recv()) {
+										bad = "address of field " + se.Sel.Name
+									}
+								}
+							}
+						case *ast.StarExpr:
+							// *p = v on the struct itself is caught as assignment target below
+						}
+						if bad != "" && !(q == pk && allowed[name]) {
+							problems = append(problems, fmt.Sprintf("%s: %s in %s.%s at %s (not listed in established_by)", key, bad, q.Name, name, w.Fset.Position(n.Pos())))
+						}
+						return true
+					})
+				}
+			}
+		}
+	}
+	sort.Strings(problems)
+	return problems
+}
